@@ -8,21 +8,97 @@
 #include <QString>
 #include <QStringList>
 #include <QTextStream>
+#include <QXmlStreamReader>
 
 // --------------------------------------------------------------------------- XML helpers
 inline const QString NS_STREAM = QStringLiteral("http://etherx.jabber.org/streams");
 
 // Parse one element inside a stream root that declares the stream prefix and the given default
 // namespace (what XmppSocket does with data from the wire).  *ok = false: not well-formed.
+// True iff some start tag of the (syntactically valid) text carries the same attribute name twice.
+// Qt's readers do not notice a repeated xmlns / xmlns:p declaration (they treat declarations apart
+// from attributes); XML 1.0 (3.1, "Unique Att Spec") and every other parser reject it.
+inline bool hasRepeatedAttribute(const QString &t)
+{
+    const int n = t.size();
+    int i = 0;
+    while (i < n) {
+        if (t[i] != QChar('<')) {
+            i++;
+            continue;
+        }
+        if (t.midRef(i, 4) == QLatin1String("<!--")) {
+            int e = t.indexOf(QLatin1String("-->"), i + 4);
+            i = e < 0 ? n : e + 3;
+            continue;
+        }
+        if (t.midRef(i, 9) == QLatin1String("<![CDATA[")) {
+            int e = t.indexOf(QLatin1String("]]>"), i + 9);
+            i = e < 0 ? n : e + 3;
+            continue;
+        }
+        if (i + 1 < n && (t[i + 1] == QChar('?') || t[i + 1] == QChar('!') || t[i + 1] == QChar('/'))) {
+            int e = t.indexOf(QChar('>'), i);
+            i = e < 0 ? n : e + 1;
+            continue;
+        }
+        // start tag: name, then attributes
+        i++;
+        while (i < n && !t[i].isSpace() && t[i] != QChar('>') && t[i] != QChar('/')) {
+            i++;
+        }
+        QStringList names;
+        while (i < n && t[i] != QChar('>')) {
+            if (t[i].isSpace() || t[i] == QChar('/')) {
+                i++;
+                continue;
+            }
+            int s = i;
+            while (i < n && t[i] != QChar('=') && !t[i].isSpace() && t[i] != QChar('>')) {
+                i++;
+            }
+            const auto name = t.mid(s, i - s);
+            while (i < n && (t[i].isSpace() || t[i] == QChar('='))) {
+                i++;
+            }
+            if (i < n && (t[i] == QChar('"') || t[i] == QChar('\''))) {
+                const QChar q = t[i];
+                int e = t.indexOf(q, i + 1);
+                i = e < 0 ? n : e + 1;
+            }
+            if (names.contains(name)) {
+                return true;
+            }
+            names << name;
+        }
+    }
+    return false;
+}
+
 inline QDomElement parseWrapped(QDomDocument &doc, const QString &xml, const QString &defaultNs, bool *ok)
 {
-    QString w = QStringLiteral("<stream:stream xmlns:stream='http://etherx.jabber.org/streams'");
+    // the prefixes a stream root declares: stream (always) and db (server dialback)
+    QString w = QStringLiteral("<stream:stream xmlns:stream='http://etherx.jabber.org/streams' xmlns:db='jabber:server:dialback'");
     if (!defaultNs.isEmpty()) {
         QString esc = defaultNs;
         esc.replace('&', "&amp;").replace('\'', "&apos;").replace('<', "&lt;");
         w += QStringLiteral(" xmlns='") + esc + QStringLiteral("'");
     }
     w += QStringLiteral(">") + xml + QStringLiteral("</stream:stream>");
+    // Well-formedness is decided by a conforming reader: QDomDocument::setContent (QXmlSimpleReader)
+    // accepts a start tag that carries the same attribute twice, and neither of Qt's readers notices
+    // a repeated xmlns declaration, which every other XML parser rejects.
+    {
+        QXmlStreamReader strict(w);
+        while (!strict.atEnd()) {
+            strict.readNext();
+        }
+        if (strict.hasError() || hasRepeatedAttribute(xml)) {
+            doc.clear();
+            *ok = false;
+            return {};
+        }
+    }
     QString err;
     if (!doc.setContent(w, true, &err)) {
         doc.clear();
